@@ -168,10 +168,21 @@ Definition corr_op (st : crun) (op : c9op) : crun :=
                                            (N.of_nat (length (tips n))) (tips n) [] with
                                    | Ok l => map cm_eq l | _ => [] end
                        | None => [] end in
+          (* Go iterates stats.Tips as a map: ANY order.  The observed choice must be one that SOME order produces: every
+             chosen tip is usable on its own, no two chosen share the duplicate class of PrevalidateBlock (base hash and
+             nonces), at most MAX_SIDE_BLOCKS, and maximal (the cap is reached, or every usable tip that was not chosen
+             shares the duplicate class of a chosen one). [cands] (the model's own order) is one such choice. *)
+          let singles := match get_block n (top n) with
+                         | Some p => flat_map (fun tp => match select_sides cfg false n p (b_height t) (b_ts t) (b_diff t) (b_anc t) 1 [tp] [] with
+                                                         | Ok l => l | _ => [] end) (tips n)
+                         | None => [] end in
+          let chosen := flat_map (fun x => match find (fun cm => cm_eq cm =? x) singles with Some cm => [cm] | None => [] end) (to_sides o) in
           let sides_ok :=
-            if N.of_nat (length cands) <=? max_side_blocks cfg then set_eqb (to_sides o) cands && distinctN (to_sides o)
-            else forallb (fun x => memN x cands) (to_sides o) && distinctN (to_sides o) &&
-                 (N.of_nat (length (to_sides o)) =? max_side_blocks cfg) in
+            (set_eqb (to_sides o) cands && distinctN (to_sides o) && (N.of_nat (length cands) <=? max_side_blocks cfg)) ||
+            ((N.of_nat (length chosen) =? N.of_nat (length (to_sides o))) && distinctN (to_sides o) && distinctN (map cm_dup chosen) &&
+             (N.of_nat (length chosen) <=? max_side_blocks cfg) &&
+             ((N.of_nat (length chosen) =? max_side_blocks cfg) ||
+              forallb (fun cm => existsb (fun c2 => cm_dup c2 =? cm_dup cm) chosen) singles)) in
           let window := (to_ts o =? prev_ts) && (now_lo + 1 <=? prev_ts) || ((now_lo + 1 <=? to_ts o) && (to_ts o <=? now_hi + 1)) in
           upd w1 (chk (negb (to_err o)) 6 ++
                   (if to_err o then [] else
